@@ -452,7 +452,20 @@ SERDE_CONFIGS = [["serde"], ["serde", "serde_repr"], ["std", "serde"], ["std", "
 HARNESS_CONFIG = ["std", "serde", "serde_repr"]
 
 
-def parse_serde_shapes(srcs):
+def feature_closure(feats, fs):
+    """features enabled by enabling `fs` (a feature enables the features it lists; entries like
+    "dep:x" or "crate/feat" are not features of this crate)"""
+    out, todo = [], list(fs)
+    while todo:
+        f = todo.pop(0)
+        if f in out or f.startswith("dep:") or "/" in f:
+            continue
+        out.append(f)
+        todo.extend(feats.get(f, []))
+    return out
+
+
+def parse_serde_shapes(srcs, feats=None):
     """For each public type and each feature configuration with serde enabled: how Deserialize is
     obtained, as far as the source text shows.
        'derive'        a plain derive(Deserialize): fields are stored unvalidated
@@ -488,8 +501,9 @@ def parse_serde_shapes(srcs):
                 else:
                     conds.append((None, a))
         for c in SERDE_CONFIGS:
+            enabled = feature_closure(feats or {}, c)
             if m:
-                text = " ".join(t for (cond, t) in conds if cond is None or eval_cfg(cond, c))
+                text = " ".join(t for (cond, t) in conds if cond is None or eval_cfg(cond, enabled))
                 shape = shape_of_attrs(text, s)
                 if shape is None:
                     shape = "custom" if custom else "none"
@@ -563,7 +577,7 @@ def main():
     smt = [(a, int(b)) for a, b in dump["SMT"]]
     tct = [(a, int(b)) for a, b in dump["TCT"]]
     CURRENT[0] = "SerdeShapes"
-    shapes, shapes_by_cfg = parse_serde_shapes(srcs)
+    shapes, shapes_by_cfg = parse_serde_shapes(srcs, feats)
 
     hdr = ["(* GENERATED by translator/gen_tables.py from /repo's current tree -- do not edit. *)",
            "From Coq Require Import NArith List String.",
@@ -592,7 +606,12 @@ def main():
     v.append("")
     v.append("(* Cargo features (incl. optional dependencies) and the default set *)")
     v.append("Definition cargo_features : list string := [%s]." % "; ".join(coq_str(k) for k in feats if k != "default"))
-    v.append("Definition cargo_default : list string := [%s]." % "; ".join(coq_str(k) for k in feats.get("default", [])))
+    def closure(fs):
+        return feature_closure(feats, fs)
+    v.append("(* the default set, closed under the features each feature enables *)")
+    v.append("Definition cargo_default : list string := [%s]." % "; ".join(coq_str(k) for k in closure(feats.get("default", []))))
+    v.append("(* what enabling the serde features enables *)")
+    v.append("Definition cargo_serde : list string := [%s]." % "; ".join(coq_str(k) for k in closure(["serde", "serde_repr"])))
     v.append("")
     changed |= write_if_changed(os.path.join(gen, "NewtypeTables.v"), "\n".join(v))
 
